@@ -552,9 +552,18 @@ def run(ctx):
                     # time qualifies for this anchor may be the partner of later anchors too (also when it is skipped for
                     # another reason, e.g. because it is the anchor row itself)
                     if partner is not None and (pa if lesser_ == "a" else pb) != partner:
-                        for r_, bl in incs.items():
+                        # any write that moves the partner pointer (an increment, or an assignment such as `b_ptr = index of the partner found`)
+                        writes = {r_: list(bl) for r_, bl in incs.items()}
+                        for r_ in partner:
+                            for i2 in region:
+                                for st2 in P.blocks[i2]["s"]:
+                                    if st2.get("a") == [r_] and "v" in st2 and i2 not in writes.get(r_, []):
+                                        # not the initialisation in front of the loop
+                                        if P.can_reach(i, i2):
+                                            writes.setdefault(r_, []).append(i2)
+                        for r_, bl in writes.items():
                             fam = (P._origin_locals({"c": [r_]}) | {r_}) & roots
-                            if fam & partner and any(x in region for x in bl):
+                            if r_ in partner and any(x in region for x in bl) or (fam & partner and any(x in region for x in bl)):
                                 n_arms += 0
                                 bad.append(("partner-advanced-while-qualifying:%s" % short, "%s: the pointer into the partner list (%s) is advanced on an arm where the partner's time qualifies (%s is %s): that partner is lost for later anchors, and with equal times which pairs come back depends on the arrival order" % (
                                     short, P.local_name(r_) or "_%d" % r_, op, truth), sp(P, i)))
